@@ -319,6 +319,8 @@ func (c *Case) applyCtrlTimeout(h specqbft.Height, round specqbft.Round) ctrlRes
 	defer c.clearFault()
 	if c.armedOK && c.armedH == uint64(h) && c.armedR == uint64(round) {
 		c.armedOK = false // the armed timer fires now
+	} else {
+		c.firedUnarmed = true // a timeout event for a timer that is not live (stale event, or a file recorded on another tree)
 	}
 	r := c.ctrlTimeout(c.ctrl, c.rc, h, round)
 	c.emit(fmt.Sprintf("ctimeout h=%d r=%d%s", uint64(h), uint64(round), nf), r.line())
